@@ -123,8 +123,9 @@ def registry():
     E.append(Entry("MonteCarloEER", lambda c, s: P.MonteCarloEER(random_state=s), "clf", clfkw, samplewise=True, slow=True))
     E.append(Entry("ValueOfInformationEER", lambda c, s: P.ValueOfInformationEER(random_state=s), "clf", clfkw, feat=False, samplewise=True, slow=True))
     for m in ("KL_divergence", "vote_entropy", "variation_ratios"):
+        # hard votes break ties with the members' own generators, row by row: a Monte-Carlo-like scorer for C08's permutation clause
         E.append(Entry(f"QueryByCommittee[{m}]", lambda c, s, m=m: P.QueryByCommittee(method=m, random_state=s), "clf",
-                       lambda c, s: {"ensemble": _ens(c, s)}, samplewise=True))
+                       lambda c, s: {"ensemble": _ens(c, s)}, samplewise=True, stochastic=(m != "KL_divergence")))
     E.append(Entry("Quire", lambda c, s: P.Quire(classes=list(c), random_state=s), "clf", feat=False, samplewise=True, anyidx=False))
     E.append(Entry("FourDs", lambda c, s: P.FourDs(random_state=s), "clf", lambda c, s: {"clf": _mix(c, s)}, feat=False, setdep=True))
     E.append(Entry("CostEmbeddingAL", lambda c, s: P.CostEmbeddingAL(classes=list(c), random_state=s), "clf", slow=True, samplewise=True, stochastic=True))
